@@ -32,6 +32,10 @@ def nListeners : Nat := 4
 def step (es : EState) (fs : List String) (obs : String) : EState × String × String :=
   match fs with
   | ["ev", "reset"] => ({}, render init nListeners, "ok")
+  | ["ev", "loglevel", _lvl] =>
+    -- C19: the logging component follows the most recent log level
+    (es, "follows:latest", if obs = "follows:latest" then "ok" else if obs.startsWith "panic" then "bad:panic"
+      else "bad:component-not-following-the-latest-setting")
   | ["ev", "retime", _backend, _wait, _new] =>
     -- C19 / C18: an accepted interval change (also one shorter than the time already waited) is followed, and survived
     (es, "follows:latest", if obs = "follows:latest" then "ok" else if obs.startsWith "panic" then "bad:panic"
